@@ -49,11 +49,73 @@ def _canon_radius(e):
     return norm_src(e)
 
 
+def clamp_rule(ctx):
+    """residual() depends on z only through radius = max(0, r z), whose derivative is r for r z > 0 and 0 for r z < 0.  A reported
+    dR/dz whose value cannot depend on the sign of z (no data or control dependence on the VALUE of z; len(z) is a shape) is wrong
+    on one of the two half lines, both of which lie away from the active-set boundary."""
+    from ..cfg import CFG
+    from ..dataflow import ReachingDefs
+    rep = ctx.rep
+    sph = ctx.model.cls("Sphere", PX)
+    fn = sph.methods.get("Jacobian")
+    res = sph.methods.get("residual")
+    if fn is None or res is None:
+        raise AnalysisError("Sphere.Jacobian / residual vanished")
+    C = f"{PX}:Sphere.Jacobian"
+    # premise: the residual uses z only inside max(0, .) / np.maximum(0, .)
+    zuses = [n for n in ast.walk(res) if isinstance(n, ast.Name) and n.id == "z" and isinstance(n.ctx, ast.Load)]
+    clamped = True
+    for u in zuses:
+        p = u
+        ok_ = False
+        while p is not None and not isinstance(p, ast.stmt):
+            if isinstance(p, ast.Call) and (dotted(p.func) or "") in ("max", "np.maximum", "maximum") and any(isinstance(a, ast.Constant) and a.value == 0 for a in p.args):
+                ok_ = True
+            p = getattr(p, "_parent", None)
+        clamped = clamped and ok_
+    if not zuses or not clamped:
+        rep.ok("C27.R4", C, "residual does not use z only through max(0, r z) (premise of the rule not met; no verdict)", verdict="unknown", trivial=True)
+        return
+    cfg = CFG(fn)
+    rd = ReachingDefs(cfg)
+    rets = [n for n in cfg.nodes if n.kind == "stmt" and isinstance(n.ast, ast.Return) and isinstance(n.ast.value, ast.Tuple) and len(n.ast.value.elts) == 3]
+    if len(rets) != 1 or not isinstance(rets[0].ast.value.elts[2], ast.Name):
+        raise AnalysisError(f"{C}: `return Jx, Jy, Jz` not found")
+    jz = rets[0].ast.value.elts[2].id
+    defs = [d for d in rd.defs_reaching(rets[0], jz) if d is not cfg.entry]
+    n_checked = 0
+    for d in defs:
+        if isinstance(d.ast, ast.Assign) and isinstance(d.ast.value, ast.Call) and (dotted(d.ast.value.func) or "").endswith("zeros"):
+            continue  # stick branch: residual = x, independent of z
+        nodes, _ = rd.backward_slice(d, control=True)
+        value_use = False
+        for nd in nodes:
+            if nd.ast is None:
+                continue
+            for w in ast.walk(nd.ast):
+                if isinstance(w, ast.Name) and w.id == "z" and isinstance(w.ctx, ast.Load):
+                    par = getattr(w, "_parent", None)
+                    if isinstance(par, ast.Call) and (dotted(par.func) or "") == "len":
+                        continue
+                    # the active-set flag itself is computed elsewhere; a value use inside this function counts
+                    value_use = True
+        n_checked += 1
+        if value_use:
+            rep.ok("C27.R4", C, f"{norm_src(d.ast)}: depends on the value of z (through the clamp or a guard)")
+        else:
+            rep.bad("C27.R4", C, d.ast, f"`{jz}` (dR/dz on the slip branch) does not depend on the value of z at all, but the residual contains z only as max(0, r z): "
+                    "for r z < 0 the residual is constant in z and the true derivative is 0, not r * direction", f"{PX}:{d.lineno}")
+    if n_checked == 0:
+        raise AnalysisError(f"{C}: no slip-branch definition of {jz} found")
+
+
 def run(ctx):
     rep = ctx.rep
     rep.rule("C27.R1", "radius is non-negative and the same in all Sphere methods", 5)
     rep.rule("C27.R2", "NegativeOrthant sign and complementary masks", 3)
     rep.rule("C27.R3", "Sphere.prox branches, active set and residual agree", 6)
+    rep.rule("C27.R4", "the derivative of the clamped radius max(0, r z) with respect to z depends on the sign of r z (it is 0 on the degenerate ball)", 1)
+    clamp_rule(ctx)
     sph = ctx.model.cls("Sphere", PX)
     no = ctx.model.cls("NegativeOrthant", PX)
     # ---- R1
@@ -67,6 +129,8 @@ def run(ctx):
         cands = []
         for n in ast.walk(fn):
             if isinstance(n, ast.BinOp) and isinstance(n.op, ast.Mult) and {norm_src(n.left), norm_src(n.right)} == {"self.r", "z"}:
+                if isinstance(getattr(n, "_parent", None), ast.Compare):
+                    continue  # `self.r * z > 0` is a test on the sign of the radius argument, not a radius
                 cands.append(n)
         if not cands:
             rep.bad("C27.R1", C, fn.name, "the ball radius r * z is not used", f"{PX}:{fn.lineno}")
@@ -204,7 +268,13 @@ MUTANTS = [
          old="            radius = max(0, self.r * z)\n            arg = rho * x - y\n            return y + radius * arg / np.linalg.norm(arg)",
          new="            radius = max(0, self.r * z)\n            arg = rho * x + y\n            return y + radius * arg / np.linalg.norm(arg)", expect="C27.R3"),
 ]
+MUTANTS += [
+    dict(id="c27-r4-orig", canary=True, what="Sphere.Jacobian: dR/dz = r * direction also on the degenerate ball (original defect)", file=PX,
+         old="            Jz = (self.r if radius > 0 else 0.0) * direction.reshape((nx, nr))", new="            Jz = self.r * direction.reshape((nx, nr))", expect="C27.R4"),
+]
 NEUTRAL = [
+    dict(id="c27-n-r4", what="Sphere.Jacobian: clamp derivative through a comparison of r z", file=PX,
+         old="            Jz = (self.r if radius > 0 else 0.0) * direction.reshape((nx, nr))", new="            Jz = self.r * (self.r * z > 0) * direction.reshape((nx, nr))"),
     dict(id="c27-n1", canary=True, what="np.maximum instead of max", file=PX,
          old="    def prox(self, x, z):\n        radius = max(0, self.r * z)", new="    def prox(self, x, z):\n        radius = max(0.0, self.r * z)"),
 ]
